@@ -63,36 +63,47 @@ def split_lenient(line):
 
 class Zones:
     """tz lookup for the expected observation: the active provider's own data (S6), custom fixed-offset zones from the text."""
+    _known = {}          # (provider, cleaned id) -> tzinfo or None   (misses are expensive: cache them too)
 
     def __init__(self, provider):
         self.provider = provider
         self.custom = {}
 
+    def _provider_zone(self, clean):
+        k = (self.provider, clean)
+        if k not in Zones._known:
+            tz = None
+            if self.provider == "pytz":
+                import pytz
+                try:
+                    tz = pytz.timezone(clean)
+                except pytz.UnknownTimeZoneError:
+                    tz = None
+            else:
+                import zoneinfo
+                try:
+                    tz = zoneinfo.ZoneInfo(clean)
+                except (zoneinfo.ZoneInfoNotFoundError, ValueError, OSError):
+                    tz = None
+            Zones._known[k] = tz
+        return Zones._known[k]
+
     def offset(self, key, naive):
         """utcoffset for a wall time in zone ``key``; None when the id is not (yet) known: such a value is floating"""
-        if self.provider == "pytz":
-            import pytz
-            try:
-                return pytz.timezone(key).localize(naive).utcoffset()
-            except pytz.UnknownTimeZoneError:
-                pass
-        else:
-            import zoneinfo
-            try:
-                return naive.replace(tzinfo=zoneinfo.ZoneInfo(key)).utcoffset()
-            except (zoneinfo.ZoneInfoNotFoundError, ValueError, OSError):
-                pass
-        return self.custom.get(key.strip("/"), (None, None))[1]
+        clean = key.strip("/")          # ids "can be a bit unclean, starting with a / for example": the library looks up the cleaned id
+        tz = self._provider_zone(clean)
+        if tz is not None:
+            return tz.localize(naive).utcoffset() if hasattr(tz, "localize") else naive.replace(tzinfo=tz).utcoffset()
+        return self.custom.get(clean, (None, None))[1]
 
     def key(self, tzid):
-        """zone key the value reports: the TZID text of the defining VTIMEZONE for custom zones"""
-        if self.provider == "pytz":
-            import pytz
-            try:
-                return pytz.timezone(tzid).zone         # pytz resolves ids case-insensitively to the canonical spelling
-            except pytz.UnknownTimeZoneError:
-                pass
-        c = self.custom.get(tzid.strip("/"))
+        """zone key the value reports: the provider's canonical key (pytz resolves ids case-insensitively), or the
+        TZID text of the defining VTIMEZONE for custom zones"""
+        clean = tzid.strip("/")
+        tz = self._provider_zone(clean)
+        if tz is not None:
+            return getattr(tz, "zone", None) or getattr(tz, "key", None) or clean
+        c = self.custom.get(clean)
         return c[0] if c else tzid
 
 
@@ -108,7 +119,8 @@ def dt_obs(text, tzid, zones):
             # the library gives TZID precedence over a trailing Z; G3 never writes both
             off = zones.offset(tzid, v.replace(tzinfo=None))
             if off is None:
-                return ("datetime", ("datetime",) + f + (None, None))      # unknown TZID: floating
+                # unknown TZID: the value is read as if the parameter were absent (UTC with Z, else floating)
+                return ("datetime", ("datetime",) + f + (("UTC", 0) if text.endswith("Z") else (None, None)))
             return ("datetime", ("datetime",) + f + (zones.key(tzid), off if isinstance(off, str) else int(off.total_seconds())))
         if text.endswith("Z"):
             return ("datetime", ("datetime",) + f + ("UTC", 0))
